@@ -1,13 +1,16 @@
 # run configuration of C05 for bin/check (see bin/props.py)
 PROP = {'level': 'exploration',
- 'level_text': 'Generated multisets of 64-byte signatures (all 65 536 prefixes with bucket populations 0,1,2,3,2^k-1,2^k,2^k+1 up to 4097, uniform 1/2/3, '
-               'single signatures, empty set, buckets around the 16 000 pre-allocation, whole-signature duplicates x2/x5, constructed xxhash64 collisions, '
-               '4 insertion orders, 6 metadata shapes) are Put into the real current and legacy writers, sealed, and every signature plus not-added probes '
-               '(same prefix, one byte changed at every position, equal hash under another prefix) is looked up through Writer.Has (during insertion, before '
-               'and after Seal) and through the sealed file opened with mmap, os.File, bytes.Reader and a ReaderAt that returns io.EOF with the final full read. '
-               'Oracle: per-prefix set of xxhash64 values computed with cespare/xxhash directly.',
- 'level_note': 'one current-format writer per child process (8 GiB pre-allocation); populations above 65 537 per bucket and files beyond ~20 MB are not '
-               'exercised; the remote (HTTP) ReaderAt is covered by C01/C17, not here',
+ 'level_text': 'Generated multisets of 64-byte signatures (all 65 536 prefixes with bucket populations 0,1,2,3,2^k-1,2^k,2^k+1 up to 4097; a ladder of every '
+               'population 0..400 (thorough 0..1500); uniform 1/2/3; single signatures; the empty set; buckets around the 16 000 pre-allocation and around 2^16 '
+               '(thorough: 2^17, 200 000 in one bucket, 200 000 in 16); whole-signature duplicates x2/x5; constructed xxhash64 collisions; 4 insertion orders; '
+               '6 metadata shapes; directed prefixes 0000/ffff/00ff/ff00/...) are Put into the real current and legacy writers, sealed, and every signature plus '
+               'not-added probes (same prefix, one byte changed at every position, equal hash under another / the byte-swapped prefix, equal hash under the same '
+               'prefix) is looked up through Writer.Has (during insertion, before and after Seal) and through the sealed file opened with mmap, os.File, '
+               'bytes.Reader and a ReaderAt that returns io.EOF with the final complete read. Oracle: per-prefix set of xxhash64 values computed with '
+               'cespare/xxhash directly.',
+ 'level_note': 'one current-format writer per child process (8 GiB pre-allocation); buckets beyond 200 000 hashes and Reader.Has under concurrency are not '
+               'exercised; the remote (HTTP) ReaderAt is covered by C01/C17, the epoch search that consumes Has by C18; metadata round-trips are not part of '
+               'the statement and only the lookups under every metadata shape are judged',
  'technique': 'runtime monitoring: generated workloads + reference-model oracle (per-prefix hash sets) over the real writers and readers, child-process isolation',
  'rule': 'distinct bucket shapes sealed and probed',
  'race_allow': [],
